@@ -32,3 +32,14 @@ Definition check_case (c : case) : bool := check_run cstate0 (fst c) (snd c).
 Definition model_out (c : case) : list nat * list vrow :=
   let '(st, codes) := run_c pmetric_schema cstate0 (fst c) in
   (codes, map (fun h => abs_row (h_row h)) (s_hs st)).
+
+(* debugging aid for replays: index of the first step whose observation the model does not reproduce *)
+Fixpoint first_bad (st : cstate) (p : list op) (os : list obs) (i : nat) : option (nat * nat * list vrow) :=
+  match p, os with
+  | o :: p', (code, vals, caps) :: os' =>
+      let '(st1, c) := cstep pmetric_schema st o in
+      if Nat.eqb c code && forallb (check_val st1) vals && forallb (check_cap st1) caps
+      then first_bad st1 p' os' (S i)
+      else Some (i, c, map (fun h => abs_row (h_row h)) (s_hs st1))
+  | _, _ => None
+  end.
